@@ -207,6 +207,8 @@ func TestC07Reader(t *testing.T) {
 type FileVsStringCase struct {
 	Src     string `json:"src"`
 	Content string `json:"content"`
+	ViaLink bool   `json:"via_link,omitempty"` // the file is searched through a symbolic link
+	Limit   int64  `json:"limit,omitempty"`    // VM step limit (default vmLimitFile)
 }
 
 var c07runs int
@@ -216,7 +218,11 @@ func checkFileVsString(c FileVsStringCase) (sig, what string, discard bool, nmat
 	if p != nil || cerr != nil {
 		return "compile-error", c.Src, false, 0
 	}
-	sres := RunSafe(v, c.Content, vmLimitFile)
+	limit := c.Limit
+	if limit == 0 {
+		limit = vmLimitFile
+	}
+	sres := RunSafe(v, c.Content, limit)
 	if sres.OverBudget {
 		return "", "", true, 0
 	}
@@ -227,7 +233,12 @@ func checkFileVsString(c FileVsStringCase) (sig, what string, discard bool, nmat
 	defer os.RemoveAll(dir)
 	path := filepath.Join(dir, "input.txt")
 	os.WriteFile(path, []byte(c.Content), 0o644)
-	fres := RunFilesSafe(v, []string{path}, engine.NOTHING, vmLimitFile)
+	if c.ViaLink {
+		link := filepath.Join(dir, "current.txt")
+		os.Symlink("input.txt", link)
+		path = link
+	}
+	fres := RunFilesSafe(v, []string{path}, engine.NOTHING, limit)
 	c07runs++
 	if c07runs%100 == 0 {
 		runtime.GC()
@@ -344,7 +355,10 @@ func TestC07Files(t *testing.T) {
 	defer st.Write()
 	rapid.Check(t, func(t *rapid.T) {
 		content, nearEdge := genPlantedContent(t)
-		c := FileVsStringCase{Src: rapid.SampledFrom(c07Programs).Draw(t, "prog"), Content: content}
+		c := FileVsStringCase{Src: rapid.SampledFrom(c07Programs).Draw(t, "prog"), Content: content, ViaLink: rapid.IntRange(0, 4).Draw(t, "vialink") == 0}
+		if c.ViaLink {
+			st.Count("through_a_symbolic_link")
+		}
 		st.Eval()
 		SetInflight(func() string { return jsonStr(Failure{Property: "C07", Kind: "filevsstring", Case: c}) })
 		sig, what, discard, n := checkFileVsString(c)
@@ -372,4 +386,54 @@ func TestC07Files(t *testing.T) {
 			st.NonTrivial(c.Src+"\x00"+content, func() any { return map[string]any{"src": c.Src, "size": len(content), "matches": n} })
 		}
 	})
+}
+
+// TestC07Big: files of 300 kB .. 3 MiB (the buffered reader may well treat big
+// files differently), searched completely, against the same bytes in memory.
+func TestC07Big(t *testing.T) {
+	seedNote(t)
+	abortAfter = 150 * time.Second // a complete search of a megabyte takes seconds
+	StartWatchdog("C07", 180*time.Second)
+	st := NewStats("C07", "big", "exhaustive over (size, program): files of 300000, 1048575, 1048576, 1060921 bytes (thorough: also 2 MiB + 1 and 3146505) of numbered lines with a token planted every ~37 kB and in the last line x {find all of the token with a digit, find last 2 of it, a line-anchored find}; RunFiles([f], NOTHING) vs Run(string), every field; every case non-trivial; distinct by (size, program)")
+	st.Exhaustive = true
+	defer st.Write()
+	sizes := []int{300000, 1<<20 - 1, 1 << 20, 1060921}
+	if tier() == "thorough" {
+		sizes = append(sizes, 2<<20+1, 3146505)
+	}
+	nshards := envInt("VERIF_NSHARDS", 1)
+	shardIdx := envInt("VERIF_SHARD_INDEX", 0)
+	for si, size := range sizes {
+		if si%nshards != shardIdx {
+			continue
+		}
+		var b strings.Builder
+		for i := 0; b.Len() < size-40; i++ {
+			if i%700 == 350 {
+				fmt.Fprintf(&b, "line %07d has the needle%d in it, somewhere\n", i, i%10)
+			} else {
+				fmt.Fprintf(&b, "line %07d is filler text of ordinary length\n", i)
+			}
+		}
+		b.WriteString("the last line ends in a needle7")
+		content := b.String()
+		for len(content) < size {
+			content = "x" + content
+		}
+		for _, prog := range []string{"find all 'needle' digit", "find last 2 'needle' digit", "find all line start 'line' ' ' at least 7 digit ' has'"} {
+			c := FileVsStringCase{Src: prog, Content: content, Limit: 40_000_000}
+			st.Eval()
+			SetInflight(func() string { return jsonStr(Failure{Property: "C07", Kind: "filevsstring", Case: FileVsStringCase{Src: prog, Content: "(" + fmt.Sprint(len(content)) + " bytes)"}}) })
+			sig, what, discard, n := checkFileVsString(c)
+			ClearInflight()
+			if discard {
+				t.Fatalf("HARNESS: %s on %d bytes exceeds the step limit", prog, len(content))
+			}
+			if sig != "" {
+				Fail(t, Failure{Property: "C07", Kind: "filevsstring", What: clipMsg(what, 600), Case: c, Sig: sig})
+			}
+			st.Max("max_matches", int64(n))
+			st.NonTrivial(fmt.Sprint(size, prog), func() any { return map[string]any{"size": len(content), "program": prog, "matches": n} })
+		}
+	}
 }
